@@ -6,6 +6,9 @@
 //	one open <keyhex> <pkthex>                  DeserializeEncrypted on one packet
 //	one seal <key> <salt> <sid> <msgid> <seq> <ack> <body>   Encrypted.Serialize (LE hex fields)
 //	one udes <datahex>                          DeserializeUnencrypted
+//	one seq <via 0|1> <key1> <pkt1> <key2> <pkt2> ...   a sequence of receive calls in ONE process (via 1: through
+//	                                            transport.ReadMsg): per call what it returned, the kept message printed
+//	                                            again after all later calls, and the verdict (kept message / input buffer intact)
 //
 // The "reference" side (ref*) is an independent implementation of the MTProto 1.0 envelope
 // written from the protocol description with crypto/aes + crypto/sha1 only; it shares no code
@@ -46,7 +49,7 @@ func cat(parts ...[]byte) []byte {
 
 func sha(b []byte) []byte { h := sha1.Sum(b); return h[:] }
 
-func refKeyID(key []byte) []byte  { return sha(key)[12:] }
+func refKeyID(key []byte) []byte    { return sha(key)[12:] }
 func refMsgKey(plain []byte) []byte { return sha(plain)[4:] }
 
 func refKIV(key, mk []byte, x int) (k, iv []byte) {
@@ -99,6 +102,7 @@ type fields struct {
 	body             []byte
 }
 
+func sha1KeyID(k []byte) []byte { h := sha1.Sum(k); return append([]byte{}, h[12:20]...) }
 func le64(v uint64) []byte { b := make([]byte, 8); binary.LittleEndian.PutUint64(b, v); return b }
 func le32(v uint32) []byte { b := make([]byte, 4); binary.LittleEndian.PutUint32(b, v); return b }
 
@@ -174,6 +178,20 @@ func implSeal(key []byte, f fields, ack bool) string {
 	var err error
 	p, _ := vc.Catch(func() {
 		m := &messages.Encrypted{Msg: f.body, MsgID: int64(f.msgid)}
+		// the AuthKeyHash field is what the client copies from its (unchecked) session hash: the
+		// key id on the wire must come from the key the packet is encrypted with, whatever it holds
+		switch (f.msgid>>2 ^ f.salt ^ uint64(len(f.body))) % 4 {
+		case 1:
+			m.AuthKeyHash = sha1KeyID(key)
+		case 2:
+			m.AuthKeyHash = []byte{0xde, 0xad, 0xbe, 0xef, 1, 2, 3, 4}
+		case 3:
+			other := append([]byte{}, key...)
+			if len(other) > 0 {
+				other[0] ^= 1
+			}
+			m.AuthKeyHash = sha1KeyID(other)
+		}
 		out, err = m.Serialize(&informator{int64(f.sid), int32(f.seq), int64(f.salt), key}, ack)
 	})
 	if p {
@@ -579,6 +597,7 @@ func genC03(tier string, g *gen) {
 		g.c03Small(r, n)
 	}
 	g.parityCases(r, keys, map[bool]int{false: 1, true: 8}[thorough])
+	g.seqCases(r, keys, map[bool]int{false: 3, true: 18}[thorough], false)
 	// the real ReadMsg on valid packets of both kinds
 	for i := 0; i < 12; i++ {
 		k := keys[i%len(keys)]
@@ -645,6 +664,176 @@ func (g *gen) parityCases(r *vc.Rng, keys [][]byte, reps int) {
 }
 
 // ---------------------------------------------------------------------------------------------
+// SEQUENCES in one process: every message returned by the receive path is KEPT (the returned
+// object itself, no copy) together with the very buffer that was handed in; after each later call
+// all kept messages are printed again and all input buffers compared with their originals.
+// The result of call n must be a function of call n's arguments only, the returned body must
+// not alias memory that later calls write to, and the deserialiser must not modify its input.
+type seqStep struct {
+	key, pkt []byte
+	what     string
+	want     string // "E", or the fields the step must yield (prefix of the answer), or "" = model decides
+}
+
+type seqKept struct {
+	first     string        // what the call returned, printed at once
+	show      func() string // prints the kept object again
+	buf, orig []byte
+	changedAt int // first later step after which the kept message printed differently (-1: never)
+	inputAt   int // first step after which the input buffer differed from the original (-1: never)
+}
+
+func seqRun(steps []seqStep, viaReadMsg bool) []*seqKept {
+	kept := make([]*seqKept, len(steps))
+	for i, st := range steps {
+		k := &seqKept{changedAt: -1, inputAt: -1, orig: append([]byte(nil), st.pkt...), buf: append([]byte(nil), st.pkt...)}
+		if viaReadMsg {
+			s := readMsgSession(st.key)
+			_, err := s.srv.Write(cat(le32(uint32(len(k.buf))), k.buf))
+			fatal(err, "write frame")
+			var msg messages.Common
+			p, _ := vc.Catch(func() { msg, err = s.t.ReadMsg() })
+			switch {
+			case p:
+				k.first = "P"
+			case err != nil || msg == nil:
+				k.first = "E"
+			default:
+				kind := "00"
+				if _, ok := msg.(*messages.Encrypted); ok {
+					kind = "01"
+				}
+				k.show = func() string {
+					return "O:" + kind + "," + vc.Hex(le64(uint64(msg.GetMsgID()))) + "," + vc.Hex(msg.GetMsg())
+				}
+			}
+		} else {
+			var m *messages.Encrypted
+			var err error
+			p, _ := vc.Catch(func() { m, err = messages.DeserializeEncrypted(k.buf, st.key) })
+			switch {
+			case p:
+				k.first = "P"
+			case err != nil || m == nil:
+				k.first = "E"
+			default:
+				k.show = func() string { return showEnc(m) }
+			}
+		}
+		if k.show != nil {
+			k.first = k.show()
+		}
+		kept[i] = k
+		for j := 0; j <= i; j++ {
+			kj := kept[j]
+			if kj.show != nil && kj.changedAt < 0 && kj.show() != kj.first {
+				kj.changedAt = i
+			}
+			if kj.inputAt < 0 && !bytes.Equal(kj.buf, kj.orig) {
+				kj.inputAt = i
+			}
+		}
+	}
+	return kept
+}
+
+func seqVerdict(k *seqKept, i int) string {
+	switch {
+	case k.changedAt >= 0:
+		return fmt.Sprintf("bad:message returned by call %d changed after call %d of the same process", i, k.changedAt)
+	case k.inputAt >= 0:
+		return fmt.Sprintf("bad:input packet buffer of call %d modified (seen after call %d)", i, k.inputAt)
+	}
+	return "ok"
+}
+
+func (g *gen) runSeq(name string, steps []seqStep, viaReadMsg bool) {
+	kept := seqRun(steps, viaReadMsg)
+	tail := []string{"SEQ", "", flag(viaReadMsg)}
+	for _, st := range steps {
+		tail = append(tail, vc.Hex(st.key), vc.Hex(st.pkt))
+	}
+	row := func(kind string, i int, impl, direct, class string) {
+		id := g.id(kind)
+		st := steps[i]
+		req := []string{"open", id, "1", vc.Hex(st.key), vc.Hex(st.pkt)}
+		if viaReadMsg {
+			req = []string{"disp", id, vc.Hex(st.key), vc.Hex(st.pkt)}
+		}
+		g.cases.Line(req...)
+		t := append([]string(nil), tail...)
+		t[1] = fmt.Sprint(i)
+		g.impl.Line(append(append([]string{id, "model", impl, direct, class}, req...), t...)...)
+	}
+	for i, st := range steps {
+		k := kept[i]
+		direct := "ok"
+		switch {
+		case k.first == "P":
+			direct = "bad:panic"
+		case st.want == "E" && k.first != "E":
+			direct = "bad:damaged packet accepted"
+		case st.want != "" && st.want != "E" && !strings.HasPrefix(k.first, st.want):
+			direct = "bad:valid packet not opened to the sealed fields"
+		}
+		row("seq", i, k.first, direct, fmt.Sprintf("%s step %d/%d: %s", name, i, len(steps), st.what))
+	}
+	// the kept messages, printed again after the whole sequence: must still be what the model
+	// (a function of that call's arguments alone) says, and what the call returned at the time
+	for i, st := range steps {
+		k := kept[i]
+		if k.show == nil && k.inputAt < 0 {
+			continue
+		}
+		now := k.first
+		if k.show != nil {
+			now = k.show()
+		}
+		row("seqkeep", i, now, seqVerdict(k, i), fmt.Sprintf("%s: message of step %d (%s) re-read after %d later packets", name, i, st.what, len(steps)-1-i))
+	}
+}
+
+func (g *gen) seqCases(r *vc.Rng, keys [][]byte, reps int, withForged bool) {
+	for rep := 0; rep < reps; rep++ {
+		key := keys[rep%len(keys)]
+		other := keys[(rep+1)%len(keys)]
+		n := []int{40, 200, 16, 100, 7, 300}[rep%6]
+		valid := func(k []byte, n int, what string, readMsg bool) seqStep {
+			f := randFields(r, n, true)
+			want := f.show() + ","
+			if readMsg {
+				want = "O:01," + vc.Hex(le64(f.msgid)) + "," + vc.Hex(f.body)
+			}
+			return seqStep{k, refSeal(false, k, f, padFor(r, n)), fmt.Sprintf("%s, body %d", what, n), want}
+		}
+		for _, via := range []bool{false, true} {
+			if via && rep%3 != 0 {
+				continue
+			}
+			a := valid(key, n, "valid A", via)
+			steps := []seqStep{a, valid(key, n/2, "valid smaller", via), valid(key, n, "valid equal size", via)}
+			if withForged {
+				d := append([]byte(nil), a.pkt...)
+				d[len(d)-3] ^= 0x10
+				steps = append(steps, seqStep{key, d, "A with one ciphertext bit flipped (refused)", "E"})
+				steps = append(steps, seqStep{key, cat(refKeyID(key), r.Bytes(16), r.Bytes(len(a.pkt)-24)), "garbage of A's size under the right key id (refused)", "E"})
+			}
+			steps = append(steps, valid(other, n, "valid equal size under another auth key", via))
+			steps = append(steps, valid(key, 2*n+48, "valid larger", via))
+			if withForged {
+				steps = append(steps, seqStep{key, cat(refKeyID(key), r.Bytes(16), r.Bytes(16*(len(a.pkt)/16+3))), "larger garbage under the right key id (refused)", "E"})
+			}
+			steps = append(steps, valid(key, n/3, "valid smaller again", via), valid(key, 2*n+48, "valid equal to the largest", via))
+			name := fmt.Sprintf("sequence %d via DeserializeEncrypted", rep)
+			if via {
+				name = fmt.Sprintf("sequence %d via ReadMsg", rep)
+			}
+			g.runSeq(name, steps, via)
+		}
+	}
+}
+
+// ---------------------------------------------------------------------------------------------
 // C04: fault enumeration
 
 // direct oracle for a damaged packet: must be refused (not accepted, not a panic)
@@ -690,6 +879,111 @@ func (g *gen) c04Open(kind string, kh string, key, pkt []byte, oracle func(strin
 	g.stats["impl-"+impl[:1]]++
 }
 
+// Alterations of auth_key_id (bytes 0..8) and msg_key (bytes 8..24) that touch SEVERAL bytes in
+// ways in which xor / sum / and / or style folds of the byte differences cancel: the same bit
+// flipped in two and in four bytes (all pairs of key-id bytes; x every bit in the thorough tier),
+// two bytes swapped, two bytes xor-ed with the same mask, three bytes with masks a, b, a^b,
+// +d / -d on two bytes, every byte xor ff / xor 01, byte rotations, reversal, all-zero, all-ff,
+// and the same mask applied to a key-id byte and a msg_key byte.  All must be refused.
+func (g *gen) headerAlterations(r *vc.Rng, kh string, key, pkt []byte, thorough bool, use func(int) bool) {
+	emit := func(d []byte, what string) {
+		if bytes.Equal(d, pkt) {
+			return
+		}
+		g.c04Open("hdr", kh, key, d, mustRefuse, fmt.Sprintf("%s (%d-byte packet)", what, len(pkt)), use(1))
+	}
+	alt := func(f func(d []byte)) []byte {
+		d := append([]byte(nil), pkt...)
+		f(d)
+		return d
+	}
+	regions := []struct {
+		name   string
+		off, n int
+	}{{"auth_key_id", 0, 8}, {"msg_key", 8, 16}}
+	for _, rg := range regions {
+		o, n := rg.off, rg.n
+		for i := 0; i < n; i++ {
+			for j := i + 1; j < n; j++ {
+				bits := []int{r.Intn(8)}
+				if rg.name == "auth_key_id" {
+					bits = []int{0, 1 + r.Intn(7)}
+					if thorough {
+						bits = []int{0, 1, 2, 3, 4, 5, 6, 7}
+					}
+				} else if !thorough && r.Intn(10) != 0 {
+					continue
+				}
+				for _, b := range bits {
+					emit(alt(func(d []byte) { d[o+i] ^= 1 << uint(b); d[o+j] ^= 1 << uint(b) }),
+						fmt.Sprintf("%s: bit %d flipped in bytes %d and %d", rg.name, b, i, j))
+				}
+			}
+		}
+		k4 := 4
+		if thorough {
+			k4 = 24
+		}
+		for t := 0; t < k4; t++ {
+			b := r.Intn(8)
+			idx := map[int]bool{}
+			for len(idx) < 4 {
+				idx[r.Intn(n)] = true
+			}
+			emit(alt(func(d []byte) {
+				for i := range idx {
+					d[o+i] ^= 1 << uint(b)
+				}
+			}), fmt.Sprintf("%s: bit %d flipped in four bytes", rg.name, b))
+			i, j, k := r.Intn(n), r.Intn(n), r.Intn(n)
+			if i == j || j == k || i == k {
+				continue
+			}
+			m1, m2 := byte(1+r.Intn(255)), byte(1+r.Intn(255))
+			emit(alt(func(d []byte) { d[o+i], d[o+j] = d[o+j], d[o+i] }), fmt.Sprintf("%s: bytes %d and %d swapped", rg.name, i, j))
+			emit(alt(func(d []byte) { d[o+i] ^= m1; d[o+j] ^= m1 }), fmt.Sprintf("%s: bytes %d and %d xor %02x", rg.name, i, j, m1))
+			emit(alt(func(d []byte) { d[o+i] ^= m1; d[o+j] ^= m2; d[o+k] ^= m1 ^ m2 }), fmt.Sprintf("%s: bytes %d,%d,%d xor %02x,%02x,%02x", rg.name, i, j, k, m1, m2, m1^m2))
+			emit(alt(func(d []byte) { d[o+i] += m1; d[o+j] -= m1 }), fmt.Sprintf("%s: byte %d +%d, byte %d -%d", rg.name, i, m1, j, m1))
+		}
+		for _, m := range []byte{0xff, 0x01, 0x80, 0x55} {
+			emit(alt(func(d []byte) {
+				for i := 0; i < n; i++ {
+					d[o+i] ^= m
+				}
+			}), fmt.Sprintf("%s: every byte xor %02x", rg.name, m))
+		}
+		for rot := 1; rot < n; rot++ {
+			if !thorough && rot != 1 && rot != n/2 && rot != n-1 {
+				continue
+			}
+			emit(alt(func(d []byte) {
+				for i := 0; i < n; i++ {
+					d[o+i] = pkt[o+(i+rot)%n]
+				}
+			}), fmt.Sprintf("%s: bytes rotated by %d", rg.name, rot))
+		}
+		emit(alt(func(d []byte) {
+			for i := 0; i < n; i++ {
+				d[o+i] = pkt[o+n-1-i]
+			}
+		}), rg.name+": bytes reversed")
+		emit(alt(func(d []byte) {
+			for i := 0; i < n; i++ {
+				d[o+i] = 0
+			}
+		}), rg.name+": all zero")
+		emit(alt(func(d []byte) {
+			for i := 0; i < n; i++ {
+				d[o+i] = 0xff
+			}
+		}), rg.name+": all ff")
+	}
+	for t := 0; t < 3; t++ {
+		i, j, m := r.Intn(8), 8+r.Intn(16), byte(1+r.Intn(255))
+		emit(alt(func(d []byte) { d[i] ^= m; d[j] ^= m }), fmt.Sprintf("key-id byte %d and msg_key byte %d xor %02x", i, j-8, m))
+	}
+}
+
 func (g *gen) c04Base(r *vc.Rng, key []byte, n int, tier string, modelBudget *int) {
 	kh := vc.Hex(key)
 	thorough := tier == "thorough"
@@ -711,6 +1005,8 @@ func (g *gen) c04Base(r *vc.Rng, key []byte, n int, tier string, modelBudget *in
 		}
 		return "bad:valid packet not opened to the sealed fields"
 	}, fmt.Sprintf("valid len=%d", n), use(blocks))
+	// multi-byte alterations of the authenticated header fields
+	g.headerAlterations(r, kh, key, pkt, thorough, use)
 	// every single-bit flip (all bits for packets <= 128 bytes, sampled above)
 	nbits := len(pkt) * 8
 	for b := 0; b < nbits; b++ {
@@ -779,7 +1075,7 @@ func genC04(tier string, g *gen) {
 	r := vc.NewRng(vc.Seed()).Fork(4)
 	thorough := tier == "thorough"
 	keys := structuredKeys(r, 2)
-	budget := 2900 // number of cases also run through the extracted model
+	budget := 3300 // number of cases also run through the extracted model
 	lens := []int{0, 40, 200, 3, 16, 72}
 	if thorough {
 		budget = 40000
@@ -848,6 +1144,7 @@ func genC04(tier string, g *gen) {
 		g.emit(id, []string{"udes", id, vc.Hex(d)}, impl, noPanic(impl), "DeserializeUnencrypted on damaged data")
 	}
 	g.parityCases(r, keys, map[bool]int{false: 1, true: 8}[thorough])
+	g.seqCases(r, keys, map[bool]int{false: 4, true: 24}[thorough], true)
 	// fault enumeration around valid packets; the model follows as far as its budget reaches
 	for i, n := range lens {
 		g.c04Base(r, keys[i%len(keys)], n, tier, &budget)
@@ -939,6 +1236,18 @@ func main() {
 			fmt.Fprintln(realOut, implPacket(f, a[4] == "1"))
 		case "isenc":
 			fmt.Fprintln(realOut, implIsEnc(vc.UnHex(os.Args[3])))
+		case "seq": // one seq <via 0|1> <key1> <pkt1> <key2> <pkt2> ...
+			var steps []seqStep
+			for a := os.Args[4:]; len(a) >= 2; a = a[2:] {
+				steps = append(steps, seqStep{key: vc.UnHex(a[0]), pkt: vc.UnHex(a[1])})
+			}
+			for i, k := range seqRun(steps, os.Args[3] == "1") {
+				now := k.first
+				if k.show != nil {
+					now = k.show()
+				}
+				fmt.Fprintf(realOut, "step\t%d\t%s\t%s\t%s\n", i, k.first, now, seqVerdict(k, i))
+			}
 		}
 	}
 }
